@@ -90,6 +90,8 @@ def obligations(ctx: Ctx):
         obs.append(contract_ob(f"{P}.P3.{o}", f"_apply_changes {o}: only the named top-level key changes (first match / append; DELETE removes all)", (lambda o=o: WC.apply_changes_contract(o)), f"contracts.write_changes:apply_changes_contract('{o}')"))
     for k in ("dot_set", "dot_delete", "dot_new", "merge"):
         obs.append(contract_ob(f"{P}.P3.meta.{k}", f"_apply_changes META request {k}: merges, never drops unmentioned META fields", (lambda k=k: WC.meta_changes_contract(k)), f"contracts.write_changes:meta_changes_contract('{k}')"))
+    for k in ("dot_set", "dot_new", "merge"):
+        obs.append(contract_ob(f"{P}.P3.meta-nested.{k}", f"_apply_changes META request {k}: META fields the request does not name keep their value unconverted, also when it is a nested block (dict) or a list value - nothing unnamed is re-normalised", (lambda k=k: WC.meta_changes_nested_contract(k)), f"contracts.write_changes:meta_changes_nested_contract('{k}')"))
     obs += [
         contract_ob(f"{P}.P4", "_apply_mutations sets/removes only the given META keys", WC.mutations_contract, "contracts.write_changes:mutations_contract()"),
         contract_ob(f"{P}.P1.emit", "emit: Absent contributes no text, None is null, \"\" is \"\", [] is []", WC.emit_tristate_contract, "contracts.write_changes:emit_tristate_contract()"),
@@ -103,6 +105,7 @@ def obligations(ctx: Ctx):
     obs += [
         Ob(f"{P}.F1.state", "F", "the document a request edits is built from the file read by THIS call: the tool's closure keeps no process state (module objects, memoised parsed documents) that an earlier request could have edited", [W], _FO.ob_no_effects([W], ("global_write",))),
         Ob(f"{P}.F2.keys", "F", "a request naming a key the reader would not take back as one key (space, leading digit, reserved word, sigil, '::') is refused before anything is applied: the predicate is the real lexer on `KEY::x`", [W, "octave_mcp.mcp.write:WriteTool._is_writable_key"], ob_writable_keys),
+        Ob(f"{P}.F1.tool", "F", "the WriteTool object carries nothing from one request to the next (no method in the closure of execute stores through self): a preview or an earlier request cannot leak into this one", [W], _FO.ob_tool_stateless(("write",))),
         Ob(f"{P}.F1.memo", "F", "memoised functions in the tool's closure are keyed by arguments whose equality implies they are indistinguishable", [W], _FO.ob_memo_keys([W])),
     ]
     try:
